@@ -29,6 +29,16 @@ _ValueT = TypeVar("_ValueT")
 # =============================================================================
 
 
+def _describe(details_func: Callable[..., str | None], *args: Any, **kwargs: Any) -> str | None:
+    """Compute the details of an entry; journaling must not make the operation itself fail."""
+    try:
+        return details_func(*args, **kwargs)
+    except Exception:  # pylint: disable=broad-exception-caught
+        # An argument cannot describe itself (e.g. the __init__ of a subclass is still
+        # running, or a constant of unknown size is displayed)
+        return None
+
+
 def _init_wrapper(
     journal: _journaling.Journal,
     original_init: Callable[Concatenate[_SelfT, _P], None],
@@ -46,13 +56,7 @@ def _init_wrapper(
     @functools.wraps(original_init)
     def wrapper(self: _SelfT, *args: _P.args, **kwargs: _P.kwargs) -> None:
         original_init(self, *args, **kwargs)
-        try:
-            details = details_func(self)
-        except Exception:  # pylint: disable=broad-exception-caught
-            # The __init__ of a subclass may still be running, so that the object
-            # cannot describe itself yet. Journaling must not make construction fail
-            details = None
-        journal.record(self, "init", details=details)
+        journal.record(self, "init", details=_describe(details_func, self))
 
     return wrapper
 
@@ -75,7 +79,9 @@ def _setter_wrapper(
     @functools.wraps(original_setter)
     def wrapper(self: _SelfT, value: _ValueT) -> None:
         old_value = getattr(self, property_name)
-        journal.record(self, operation, details=f"{old_value!r} -> {value!r}")
+        journal.record(
+            self, operation, details=_describe(lambda: f"{old_value!r} -> {value!r}")
+        )
         original_setter(self, value)
 
     return wrapper
@@ -99,7 +105,9 @@ def _method_wrapper(
 
     @functools.wraps(original_method)
     def wrapper(self: _SelfT, *args: _P.args, **kwargs: _P.kwargs) -> _T:
-        journal.record(self, operation, details=details_func(self, *args, **kwargs))
+        journal.record(
+            self, operation, details=_describe(details_func, self, *args, **kwargs)
+        )
         return original_method(self, *args, **kwargs)
 
     return wrapper
@@ -126,7 +134,9 @@ def _container_method_wrapper(
     @functools.wraps(original_method)
     def wrapper(self: _SelfT, *args: _P.args, **kwargs: _P.kwargs) -> _T:
         target = getattr(self, target_attr)
-        journal.record(target, operation, details=details_func(self, *args, **kwargs))
+        journal.record(
+            target, operation, details=_describe(details_func, self, *args, **kwargs)
+        )
         return original_method(self, *args, **kwargs)
 
     return wrapper
